@@ -154,7 +154,10 @@ func (d *duplexHTTPCall) Read(data []byte) (int, error) {
 		return 0, fmt.Errorf("nil response from %v", d.request.URL)
 	}
 	n, err := d.response.Body.Read(data)
-	return n, wrapIfRSTError(err)
+	// If the context ends while we're blocked reading, net/http returns the
+	// context's error: make sure that it's coded as canceled or deadline exceeded
+	// before protocol-specific code wraps it in a less accurate code.
+	return n, wrapIfRSTError(wrapIfContextError(err))
 }
 
 func (d *duplexHTTPCall) CloseRead() error {
